@@ -3,7 +3,7 @@
    sig=drain-after-disconnect and sig=queued-app-flushed-outside-logon; c08_check reports exactly those classes on the
    implementation.  Proved here are the step-level facts the statement rests on (`_partial`). *)
 From Coq Require Import ZArith List Bool.
-From QF Require Import Base.Bytes Session.Types Session.Model Session.Spec Session.LocalProofs.
+From QF Require Import Base.Bytes Session.Types Session.Model Session.Spec Session.LocalProofs Session.FrameProofs.
 Import ListNotations.
 Open Scope Z_scope.
 
@@ -35,3 +35,14 @@ Theorem c08_timeout_ends_with_logout : forall c snd tgt msgs hb sr i q,
   let s' := step (mk c (SPending i) snd tgt msgs q hb sr) (ETimeout PeerTimeout) in
   s_st s' = SLatent /\ In CbOnLogout (s_cbs s') /\ s_closed s' = true /\ s_out_open s' = false /\ s_wire s' = [].
 Proof. exact timer_dead_peer. Qed.
+
+(* TRACE LEVEL.  At every event boundary of every trace: a connected session has both channels open, a disconnected one has
+   both closed and nothing buffered.  With c08_no_write_after_close this is "after a disconnect nothing more is written to
+   that connection" for the steps that follow the disconnect (what happens INSIDE the disconnecting step is the recorded
+   finding drain-after-disconnect). *)
+Theorem c08_channels_follow_the_state : forall c es, Forall Boundary (run_trace es (init_sess c)).
+Proof. exact trace_boundary. Qed.
+
+(* once the outbound channel is closed, draining the inbound buffer (and everything it calls) never re-opens it *)
+Theorem c08_drain_keeps_channel_closed : forall fuel s, OutClosed s -> OutClosed (drain_message_in fuel s).
+Proof. exact drain_out_closed. Qed.
